@@ -92,6 +92,9 @@ for row in ('Existential:NT', 'Existential:FNT', 'Universal:FN', 'Universal:FNT'
 F.append(dict(property='C11', key='C11:extension:K3W->K3WQ:fold:*', status='known',
     what='consequence of the K3W->K3WQ quantifier rows: e.g. Fa |- ExFx is valid in K3W and refuted in K3WQ by the genuine '
          'countermodel Fa=T, Fb=N'))
+# (i)/(ii)/(l) model builder / export findings (C08, C20) — proposed by the component builders, failing inputs in tools/notes_C08.md / notes_C20.md
+for e in [{"property": "C08", "key": "C08:identity-completion:not-symmetric:*", "status": "known", "what": "cpl.Model.finish completes identity in ONE pass (_agument_extension_with_identicals, before _ensure_self_identity): set a=b to T, finish: b=a evaluates to F (CPL CFOL K D T S4 S5). The sweep-to-fixpoint repair (tools/fix_C08_1.diff) is not acceptable: Tableau(CFOL, 'b=c |- c=b').build() then raises ModelValueError on the open branch {b=c, ~c=b}."}, {"property": "C08", "key": "C08:identity-completion:not-transitive:*", "status": "known", "what": "same one-pass completion: a=b, c=b set to T, finish: two of the identities hold and the third implied one evaluates to F (which one depends on the hash order of model.constants)."}, {"property": "C08", "key": "C08:identity-completion:extension-not-closed:*", "status": "known", "what": "same one-pass completion; tools.substitute replaces ALL occurrences of a constant: a=b, Haa set to T, finish: Hba evaluates to F."}, {"property": "C08", "key": "C08:identity-completion:order-dependent:*", "status": "known", "what": "same one-pass completion: the finished model depends on the order of the set_predicated_value calls (and on the per-process hash order of model.constants): [a=b, a=c, b=a] and [a=b, b=a, a=c] finish to different Identity extensions."}, {"property": "C08", "key": "C08:identity-completion:serial-world:D", "status": "known", "what": "logic D: SerialAccess.enforce() adds the world max+1 after _complete_frames and after the identity/existence pass; that world is accessible but has no frame: Fa:=T at 0, finish: value_of(a=a, world=1) = F, value_of(E!a, world=1) = F, hence []E!a is F at world 0."}, {"property": "C20", "key": "C20:anti-extension:unassigned-false:*", "status": "known", "what": "logics whose unassigned value is F but that export an anti-extension (LP, RM3, NH and modal extensions): PredicateInterpretation.having() walks explicitly assigned tuples only, so a tuple of model constants that was never assigned evaluates to F yet is missing from the exported anti-extension. LP: Fa:=T, Gb:=T, finish (open branch of Fa, Gb |- Ga): value_of(Fb)=F, anti-extension of F is []."}, {"property": "C20", "key": "C20:worlds:serial-world-unlisted:D", "status": "known", "what": "logic D: get_data() lists sorted(model.frames); the world SerialAccess.enforce() adds has no frame: Fa:=T at 0, finish: model.R has worlds {0,1}, export W=[0]. (After a value_of at world 1 the defaultdict has created the frame and the next get_data() lists it.)"}, {"property": "C20", "key": "C20:access:serial-world-unlisted:D", "status": "known", "what": "logic D, same cause: Access is R.flat(w1s=sorted(frames)): the loop 1->1 of the added world is not exported although 0->1 is."}]:
+    F.append(dict(property=e["property"], key=e["key"], status="known", what=e["what"]))
 F.append(dict(property='C14', key='C14:immutable:lazy-slot-settable:*', status='known',
     what='constructed items accept setattr on still-empty lazily filled private slots (_hash, _ident, _constants, ...), after which '
          'hash(x) / x.constants return the planted value; the slots are filled through the same __setattr__ path, so there is no small repair'))
